@@ -681,7 +681,15 @@ def run(ctx: Any, prog: Program) -> None:
     for kw in ('readonly', 'report'):
         ctx.shape('C16.Q3', f"file.write('{kw} ')" in ke and f"key_flag.casefold() == '{kw}'" in kp, fgd, fgd.func('KVDef.export'), f'keyword `{kw}` written and recognised', func='KVDef.export', text=f'keyword {kw}')
     def const_line(fn: ast.AST, value: str) -> Optional[int]:
-        ls = [n.lineno for n in ast.walk(fn) if isinstance(n, ast.Constant) and n.value == value]
+        # position in document order (depth-first), not the line number: statements produced by unrolling a table loop share their lines
+        order: List[ast.AST] = []
+
+        def dfs(n: ast.AST) -> None:
+            order.append(n)
+            for ch in ast.iter_child_nodes(n):
+                dfs(ch)
+        dfs(fn)
+        ls = [i for i, n in enumerate(order) if isinstance(n, ast.Constant) and isinstance(n.value, str) and n.value.strip() == value.strip() and n.value.strip()]
         return min(ls) if ls else None
     w_ro, w_rp = const_line(fgd.func('KVDef.export'), 'readonly '), const_line(fgd.func('KVDef.export'), 'report ')
     p_ro, p_rp = const_line(fgd.func('KVDef._parse'), 'readonly'), const_line(fgd.func('KVDef._parse'), 'report')
